@@ -307,6 +307,13 @@ def stepM (ps : PState) (stepIdx : Nat) (toks : List String) : PState × StepOut
     match ps.obj v, parseIntList axes with
     | some (_, t), some ax => finishNew ps (Dense.safeT ps.st t ax)
     | _, _ => (ps.failVar, .fields "r=skip")
+  | ["apiTranspose", v, axes] =>
+    -- `tensor.Transpose(t, axes...)`: `SafeT` then `Transpose()` of the copy
+    match ps.obj v, parseIntList axes with
+    | some (_, t), some ax => finishNew ps (do
+        let (st, d) ← Dense.safeT ps.st t ax
+        Dense.transpose st d)
+    | _, _ => (ps.failVar, .fields "r=skip")
   | ["roll", v, axis, start, safe] =>
     match ps.obj v, axis.toInt?, start.toInt? with
     | some (id, t), some axis, some start =>
